@@ -728,6 +728,14 @@ class Gen:
         if later and r < 0.35:
             target = rng.choice(later)
             f = Field(fname, "Element", [T("class", target)], rng.choice(["one", "opt", "list"] if "list" in self.features else ["one", "opt"]))
+            subs = [c for c in m.classes if c.base == target]
+            if subs and rng.random() < 0.3:
+                # the element is called like one of the derived types (xsi:type is still needed to tell them apart)
+                sub = rng.choice(subs)
+                local = sub.meta_name if (sub.has_meta and sub.meta_name) else namegen(sub.name_gen if sub.has_meta else None, sub.name)
+                if local not in self.used:
+                    self.used.add(local)
+                    f.meta_name = local
         elif self.on("recursion", 0.08):
             target = rng.choice(names[: idx + 1])
             f = Field(fname, "Element", [T("class", target)], rng.choice(["opt", "list"]))
@@ -998,6 +1006,7 @@ class InstGen:
                 continue
             if f.xml == "Element":
                 self.field_qname = clark(self.ref.field_ns(c, decl, f.namespace, "Element"), self.ref.field_local(c, f))
+            self.holder = c
             kwargs[f.name] = self.value(f, depth, field_parent_ns(self.m, c, decl, self.eff.get(cname)))
         return C(**kwargs)
 
@@ -1150,6 +1159,7 @@ class InstGen:
 
     wildcard_models = True
     wildcard_model_count = 0
+    holder = None
     adjacent_text = False  # adjacent text items in mixed content cannot be told apart after a round trip: only for output checks
 
     def wildcard_model_classes(self, f, class_ns):
@@ -1165,6 +1175,8 @@ class InstGen:
             if (c.nillable if c.has_meta else False) or c.name == self.m.root:
                 continue
             q = self.ref.class_qname(c)
+            if self.holder is not None and any(g.meta_name == self.ref.class_local(c) for _, g in chain_fields(self.m, self.holder)):
+                continue  # an element field of the holder has that very name: the element would be bound to the field
             ns = q[1:].split("}")[0] if q.startswith("{") else None
             w = f.namespace
             ok = {None: ns == class_ns, "##any": True, "##other": ns is not None and ns != class_ns, "##local": ns is None, "##targetNamespace": ns == class_ns}.get(w, ns == (w or None))
@@ -1430,8 +1442,8 @@ class Ref:
             xt = None
             if type(v).__name__ not in declared:
                 xt = self.class_target_qname(vc)
-                if xt == q:
-                    xt = None
+                if xt == q and not declared:
+                    xt = None  # (anyType field: the class is found by the element name; a declared class is bound as declared)
             return [self.dataclass(v, q, xsi_type=xt, field_nillable=nillable)]
         el = XEl(q)
         if v is None or (tokens and not v):
